@@ -15,7 +15,7 @@ RULE = (
     "scripted service: n in 0..N versions newest first, timestamps every non-increasing sequence over {t3>t2>t1} (ties included), page size "
     "1..n+1, window start/end each in {None, t1-, t1, t1+, t2, t2+, t3, t3+} (inverted windows included); real list_versions on all of them; "
     "real get for n<=4 with sample in {1,2,3}, every subset of failing downloads, two target timezones; VersionedDataHandler on empty and "
-    "non-empty windows. non-trivial = the window cuts the history (some but not all versions inside) or a page boundary falls inside the window "
+    "non-empty windows, and constructed through its public constructor with the window given as ISO strings carrying UTC offsets +00:00 / -05:00 / +01:00 / -08:00. non-trivial = the window cuts the history (some but not all versions inside) or a page boundary falls inside the window "
     "or a download fails"
 )
 ASSUMPTIONS = [
@@ -126,6 +126,9 @@ def cases(tier, seed):
             if n <= 4:
                 out.append({"kind": "get", "stamps": list(stamps)})
     out.append({"kind": "handler"})
+    # the window as the public handler takes it: ISO strings, with and without explicit UTC offsets
+    for off in ("+00:00", "-05:00", "+01:00", "-08:00"):
+        out.append({"kind": "handler_init", "offset": off})
     return out
 
 
@@ -254,6 +257,43 @@ def evaluate(case):
                                 if not same:
                                     viol("get-rows", f"{ctx}: rows {[(g[0], g[1], str(g[4])) for g in got_rows]} expected {[(e[0], e[1], str(e[4])) for e in exp_rows]}")
         cov["get_executions"] += runs
+    elif case["kind"] == "handler_init":
+        from datetime import timezone as _tz
+
+        from elexmodel.handlers.data.VersionedData import VersionedDataHandler
+
+        versions = _history([3, 3, 2, 2, 1, 1])
+        contents = {v["VersionId"]: _csv(v["VersionId"]) for v in versions}
+        sign = 1 if case["offset"][0] == "+" else -1
+        hh = int(case["offset"][1:3])
+        zone = _tz(sign * timedelta(hours=hh))
+
+        def iso(dt):
+            return None if dt is None else dt.astimezone(zone).isoformat()
+
+        for sk, ek in (("none", "none"), ("t2", "none"), ("none", "t2"), ("t1+", "t2+"), ("t2", "t3"), ("t3+", "none"), ("t1-", "t1")):
+            start, end = WINDOW[sk], WINDOW[ek]
+            try:
+                h = VersionedDataHandler("2099-11-03_USA_G", "P", "county", ["margin"], start_date=iso(start), end_date=iso(end), sample=1, tzinfo="UTC")
+            except Exception as e:
+                viol("handler-init-raised", f"offset {case['offset']} window=[{sk},{ek}]: {type(e).__name__}: {e}")
+                continue
+            h.s3_client.s3_client = FakeService(versions, 2)
+            h.s3_client.manager = FakeManager(contents, set())
+            runs += 1
+            exp = _ref_window(versions, start, end)
+            try:
+                res = h.get_versioned_results()
+            except Exception as e:
+                viol("handler-raised", f"offset {case['offset']} window=[{sk},{ek}]: {type(e).__name__}: {e}")
+                continue
+            got_n = 0 if res is None else len(res) // 2
+            if got_n != len(exp) or (res is None) != (not exp):
+                viol("handler-window-shifted", f"window [{iso(start)}, {iso(end)}] (UTC offset {case['offset']}): {got_n} versions returned, {len(exp)} lie in the window")
+            if 0 < len(exp) < len(versions):
+                cov["handler_init_cutting_windows"] += 1
+        cov["handler_init_executions"] += runs
+        nontrivial = True
     else:
         from elexmodel.handlers.data.VersionedData import VersionedDataHandler
 
@@ -287,4 +327,4 @@ def evaluate(case):
     return {"violations": V, "cov": dict(cov), "outcome": sha(sorted(map(str, outcomes)))[:16], "nontrivial": nontrivial, "transitions": max(1, runs)}
 
 
-REQUIRED_COUNTERS = {"list_executions": 10000, "get_executions": 5000, "window_cuts_history": 500, "runs_with_failed_download": 500, "page_boundary_inside_window": 200, "early_stop_possible": 100, "handler_empty_window": 2}
+REQUIRED_COUNTERS = {"list_executions": 10000, "get_executions": 5000, "window_cuts_history": 500, "runs_with_failed_download": 500, "page_boundary_inside_window": 200, "early_stop_possible": 100, "handler_empty_window": 2, "handler_init_cutting_windows": 8}
